@@ -98,6 +98,11 @@ asn1f_parameterization_fork(arg_t *arg, asn1p_expr_t *expr, asn1p_expr_t *rhs_ps
 
 	target = TQ_FIRST(&expr->members);
 	TQ_FOR(m, &exc->members, next) {
+		if(m->rhs_pspecs && !target->rhs_pspecs) {
+			/* Substituted by an instantiation: not ours to overwrite */
+			target = TQ_NEXT(target, next);
+			continue;
+		}
 		m->rhs_pspecs = asn1p_expr_clone_with_resolver(target->rhs_pspecs ?
 						target->rhs_pspecs : exc->rhs_pspecs,
 						resolve_expr, &rarg);
@@ -154,6 +159,11 @@ resolve_expr(asn1p_expr_t *expr_to_resolve, void *resolver_arg) {
 		DEBUG("Target is a simple type %s",
 			ASN_EXPR_TYPE2STR(expr->expr_type));
 		nex = asn1p_expr_clone(expr, 0);
+		if(expr->rhs_pspecs && !nex->rhs_pspecs) {
+			/* An actual parameter that is itself an instantiation
+			 * keeps its own actual parameter list. */
+			nex->rhs_pspecs = asn1p_expr_clone(expr->rhs_pspecs, 0);
+		}
 		free(nex->Identifier);
 		nex->Identifier = expr_to_resolve->Identifier
 			? strdup(expr_to_resolve->Identifier) : 0;
